@@ -2,7 +2,8 @@
 C07 — `var()` resolution.  Mirrors, branch for branch:
 
   weasyprint/css/utils.py      parse_function, check_var_function
-  weasyprint/css/__init__.py   resolve_var   (recursion made explicit with fuel: Python's stack)
+  weasyprint/css/__init__.py   resolve_var   (recursion made explicit with fuel: Python's stack; the `seen`
+                               tuple of custom properties being substituted — cycle guard — is explicit)
 
 and states the reference semantics `subst` (replace every detectable `var(--x, fallback)` by the value of
 `--x`, or by its fallback when the value is empty, recursively; everything else unchanged).
@@ -91,34 +92,42 @@ def valueStep (rv : Tk → R (Option (List Tk))) (value : Tk) : R (List Tk) := d
   | some r => pure r
   | none => pure [value]
 
-/-- `resolve_var(computed, token, parent_style)`.  `none` = Python `None` (no `var()` in the token).
+/-- `values` of one `var(--v, default…)`: `default` when the custom property is being substituted already
+(`variable_name in seen`, the cycle guard of `fix:` 2bffab3), else `computed[variable_name] or default`. -/
+def varValues (env : Env) (seen : List String) (key : String) (dflt : List Tk) : List Tk :=
+  if seen.contains key then dflt
+  else if (env key).isEmpty then dflt else env key
+
+/-- `resolve_var(computed, token, parent_style, seen)`.  `none` = Python `None` (no `var()` in the token).
+`seen`: the custom properties (underscore names) whose substitution is in progress, innermost last.
 `fuel` bounds the Python call depth: running out of it is `RecursionError`. -/
-def resolveVar (env : Env) : Nat → Tk → R (Option (List Tk))
-  | 0, _ => throw .recursion
-  | fuel + 1, tok =>
+def resolveVar (env : Env) : List String → Nat → Tk → R (Option (List Tk))
+  | _, 0, _ => throw .recursion
+  | seen, fuel + 1, tok =>
     if !checkVar tok then pure none
     else match tok with
       | .fn name lname args =>
         if lname != "var" then do
-          let parts ← args.mapM (argStep (resolveVar env fuel))
+          let parts ← args.mapM (argStep (resolveVar env seen fuel))
           let tok' := Tk.fn name lname parts.flatten
-          -- return resolve_var(token') or (token',)
-          match ← resolveVar env fuel tok' with
+          -- return resolve_var(token', seen) or (token',)
+          match ← resolveVar env seen fuel tok' with
           | some r => if r.isEmpty then pure (some [tok']) else pure (some r)
           | none => pure (some [tok'])
         else
           match parseArgs args false with
           | some (.ident v :: dflt) => do
-            let values := env (dashToUnderscore v)
-            let values := if values.isEmpty then dflt else values
-            let parts ← values.mapM (valueStep (resolveVar env fuel))
+            let key := dashToUnderscore v
+            let values := varValues env seen key dflt
+            -- seen = (*seen, variable_name)
+            let parts ← values.mapM (valueStep (resolveVar env (seen ++ [key]) fuel))
             pure (some parts.flatten)
           | _ => pure none      -- unreachable: `checkVar tok` holds
       | _ => pure none
 
-/-- The loop of `ComputedStyle.__missing__` over `value.tokens`. -/
+/-- The loop of `ComputedStyle.__missing__` over `value.tokens` (`seen` starts empty). -/
 def resolveTokens (env : Env) (fuel : Nat) (toks : List Tk) : R (List Tk) := do
-  let parts ← toks.mapM (valueStep (resolveVar env fuel))
+  let parts ← toks.mapM (valueStep (resolveVar env [] fuel))
   pure parts.flatten
 
 /-! ### Reference semantics: substitution -/
@@ -142,7 +151,8 @@ def codeFallback (args : List Tk) : List Tk :=
   | some (_ :: dflt) => dflt
   | _ => []
 
-/-- Substitution with fuel (`none` = out of fuel), parameterised by how a fallback is read off the arguments:
+/-- Substitution with fuel (`none` = out of fuel; it has **no** cycle guard: on cyclic custom properties textual
+substitution has no meaning and this runs out of any fuel), parameterised by how a fallback is read off the arguments:
 a token in which no `var()` is detectable stays as it is; `var(--x, fb)` becomes the substituted value of `--x`
 (or of `fb` when that value is empty); any other function keeps its name and gets its arguments substituted one
 by one. -/
